@@ -8,4 +8,5 @@ import BB.InstrTable
 import BB.Spec.Decode32
 import BB.Spec.Decode16
 import BB.Spec.Intent
+import BB.Spec.Legal
 import BB.Item
